@@ -38,6 +38,7 @@ func runStreamJob(job *Job, res *Result) {
 	stale := job.Args["stale"] == "1" // a regular file already sits at the streaming output's path (history: the port used to be {o:..})
 	staleFifo := job.Args["stalefifo"] == "1" // a REGULAR file sits at <path>.fifo before the run
 	absOut := job.Args["absout"] == "1" // the streaming output is declared with an ABSOLUTE path in a not-yet-existing directory
+	midParent := job.Args["midparent"] == "1" // ... with a path that has a "../" in it: sub/../<name>.stream
 	leftFifo := job.Args["leftover_fifo"] == "1" // a named pipe left by a killed run sits at <path>.fifo
 	spy := job.Args["spy"] == "1"     // a pass-through process between producer and consumer notes the order of the streamed IPs
 	res.Scenario = fmt.Sprintf("stream/n=%d/payload=%d/max=%d", n, size, maxT)
@@ -61,6 +62,9 @@ func runStreamJob(job *Job, res *Result) {
 	}
 	if absOut {
 		res.Scenario += "/absolute-stream-path"
+	}
+	if midParent {
+		res.Scenario += "/stream-path-with-parent-step"
 	}
 	op := "" // where the streamed file / the consumer's copy live, relative to the working directory
 	if absOut {
@@ -91,6 +95,9 @@ func runStreamJob(job *Job, res *Result) {
 			if staleFifo {
 				os.WriteFile(fmt.Sprintf("in%d.txt.stream.fifo", i), []byte("STALE FIFO"), 0644)
 			}
+			if midParent {
+				os.MkdirAll("sub", 0777) // the directory the path steps through exists
+			}
 			if leftFifo {
 				syscall.Mkfifo(fmt.Sprintf("in%d.txt.stream.fifo", i), 0644)
 			}
@@ -110,6 +117,9 @@ func runStreamJob(job *Job, res *Result) {
 		prod.SetOut("out", "{i:in}.stream")
 		if absOut {
 			prod.SetOut("out", dir+"/abs/new/{i:in|basename}.stream")
+		}
+		if midParent {
+			prod.SetOut("out", "sub/../{i:in}.stream")
 		}
 		if mixed {
 			prod.SetOut("log", "{i:in}.log")
@@ -248,7 +258,7 @@ func runStreamJob(job *Job, res *Result) {
 				var rec auditRec
 				if err := json.Unmarshal([]byte(a), &rec); err != nil {
 					add("audit-invalid", cp+".audit.json is not valid JSON", "")
-				} else if up := rec.Upstream[map[bool]string{false: in + ".stream", true: dir + "/abs/new/" + in + ".stream"}[absOut]]; up == nil {
+				} else if up := rec.Upstream[map[bool]string{false: map[bool]string{false: in + ".stream", true: "sub/../" + in + ".stream"}[midParent], true: dir + "/abs/new/" + in + ".stream"}[absOut]]; up == nil {
 					add("audit-upstream", "the consumer's audit record does not name "+in+".stream as upstream", "")
 				} else if !rerun && up.ProcessName != "prod" {
 					add("audit-upstream", fmt.Sprintf("upstream record of %s.stream names process %q, expected the producer", in, up.ProcessName), "")
